@@ -18,7 +18,7 @@ for v in $list; do
   clean=$(cd $WT/$dir && go test -vet=off -count=1 -timeout 120s . 2>&1 | tail -1 | cut -c1-60)
   rm $WT/$dir/$name
   if ! (cd $WT && git apply $d/patch.diff 2>/dev/null); then echo "$v APPLY-FAILED"; rm -rf $WT; continue; fi
-  suite=$(cd $WT && go build ./... 2>&1 | head -1; cd $WT && go test -vet=off -count=1 -timeout 300s ./... 2>&1 | grep -v "no test files" | tail -1 | cut -c1-60)
+  suite=$(cd $WT && go build ./... 2>&1 | head -1; cd $WT && go test -vet=off -count=1 -timeout 300s ./... 2>&1 | grep -v "no test files" | sort | head -1 | cut -c1-60)
   cp $d/demo_test.go $WT/$dir/$name
   mut=$(cd $WT/$dir && go test -vet=off -count=1 -timeout 120s . 2>&1 | tail -1 | cut -c1-60)
   echo "$v | clean: $clean | suite+patch: $suite | demo+patch: $mut"
